@@ -195,6 +195,11 @@ func Uniq[T comparable](iter *fun.Iterator[T]) *fun.Iterator[T] {
 				return val, nil
 			}
 		}
+		// the input may have ended because it failed: report
+		// the failure rather than a normal end.
+		if err := iter.Close(); err != nil {
+			return out, err
+		}
 		return out, io.EOF
 	}).IteratorWithHook(func(out *fun.Iterator[T]) {
 		out.AddError(iter.Close())
@@ -207,6 +212,12 @@ func DropZeroValues[T comparable](iter *fun.Iterator[T]) *fun.Iterator[T] {
 		for {
 			item, err := iter.ReadOne(ctx)
 			if err != nil {
+				// the input may have ended because it
+				// failed: report the failure rather than
+				// a normal end.
+				if cerr := iter.Close(); cerr != nil && errors.Is(err, io.EOF) {
+					err = cerr
+				}
 				return out, err
 			}
 
